@@ -121,9 +121,9 @@ type fakePlayer struct {
 	p *playerSt
 }
 
-func (f *fakePlayer) ID() uuid.UUID            { return f.p.id }
-func (f *fakePlayer) Username() string         { return f.p.name }
-func (f *fakePlayer) RemoteAddr() net.Addr     { return &net.TCPAddr{IP: f.p.ip, Port: f.p.port} }
+func (f *fakePlayer) ID() uuid.UUID             { return f.p.id }
+func (f *fakePlayer) Username() string          { return f.p.name }
+func (f *fakePlayer) RemoteAddr() net.Addr      { return &net.TCPAddr{IP: f.p.ip, Port: f.p.port} }
 func (f *fakePlayer) Protocol() gproto.Protocol { return version.Minecraft_1_20_2.Protocol }
 func (f *fakePlayer) Disconnect(reason component.Component) {
 	f.w.rec.add("kick", lib.App("EKick", lib.Str(f.p.name), lib.Str(plain(reason))))
